@@ -1,6 +1,7 @@
 import TinyFlux.Mirror.Search
 import TinyFlux.Mirror.Ops
 import TinyFlux.Mirror.Reads
+import TinyFlux.Mirror.Closed
 /-!
 # C01 over the translated source: the leaf searches of `tinyflux/index.py`
 
@@ -8,8 +9,8 @@ import TinyFlux.Mirror.Reads
 tree (`Generated/IndexImpl.lean`, regenerated on every run) return, for the query object of any Model leaf query and
 any dict-shaped index state, the same set of positions as the Model's `searchMeas / searchTags / searchFields` on the
 `abs`-read state — and, by `Lemmas/Search` (L2), on an index that represents the storage those are exactly the
-positions of the points that satisfy the leaf. `_search_timestamps` and `_search_helper` stay tied through
-`Generated/IndexTables`, the translated `find_*` helpers and the correspondence runs (DESIGN 3.3).
+positions of the points that satisfy the leaf. So do `_search_timestamps` (over the translated `find_*` helpers) and
+`_search_helper` / `Index.search`, and `TinyFlux.count` / `contains` of database.py over them (`Mirror/Closed.lean`).
 -/
 namespace TinyFlux.Props.C01
 open TinyFlux.Spec TinyFlux.Model TinyFlux.Mirror TinyFlux.Generated
@@ -58,5 +59,38 @@ theorem model_count_is_step (s : State) (q : Query) (m : Option String) :
     ∧ (s.step (.contains q m)).2 = State.outOf (modelContains s.readOp q m) (fun b => .bool b) := by
   constructor <;> simp only [State.step, modelCount, modelContains] <;> split <;>
     (simp only [State.outOf, Except.map]; split <;> simp_all)
+
+/-- `Index._search_timestamps` as translated: operator selection, the six bisection branches over the translated `find_*`
+    helpers (with the scan of the run of equal timestamps), the generic branch — the Model's `searchTs`, as a set -/
+theorem translated_search_timestamps (g : GSelf) (hlen : g._timestamps.length = g._storage_pos_sorted_by_ts.length) (l : Leaf) :
+    match (Mirror.abs g).searchTs l with
+    | .ok r' => ∃ r, IndexImpl._search_timestamps g (timeQuery l) = .ok r ∧ SameSet r r'
+    | .error _ => ∃ e, IndexImpl._search_timestamps g (timeQuery l) = .error e :=
+  search_timestamps_ok g hlen l
+
+/-- `Index.search` as translated (`_search_helper`: the recursion over `& | ~`, `~FieldQuery` = every item, the dispatch
+    on the point attribute; `IndexResult.__and__/__or__/__invert__`): the Model's `Index.search`, as a set, for every query -/
+theorem translated_index_search (g : GSelf) (hg : GWF g) (hlen : g._timestamps.length = g._storage_pos_sorted_by_ts.length)
+    (q : Query) :
+    match (Mirror.abs g).search q with
+    | .ok r' => ∃ r, IndexImpl.search g (queryObj q) = .ok r ∧ SameSet r._items r' ∧ r._index_count = g._num_items
+    | .error _ => ∃ e, IndexImpl.search g (queryObj q) = .error e :=
+  search_ok g hg hlen q
+
+/-- `TinyFlux.count` / `contains` as translated, over the *translated* `Index.search` (`translatedExt`): every method a
+    count runs through — count, Index.search, _search_helper, the four leaf searches, find_* — is generated code, and the answer is
+    the Model's -/
+theorem translated_count_closed (norm : Point → Point) (g : DSelf) (q : Query) (m : Option String)
+    (hg : GWF g._index) (hts : g._index._timestamps.length = g._index._storage_pos_sorted_by_ts.length) :
+    match modelCount (absDB norm g) q m with
+    | .ok n => DatabaseImpl.count translatedExt g q m = .ok n
+    | .error _ => ∃ e', DatabaseImpl.count translatedExt g q m = .error e' :=
+  count_closed norm g q m hg hts
+
+theorem translated_contains_closed (norm : Point → Point) (g : DSelf) (q : Query) (m : Option String) (b : Bool)
+    (hg : GWF g._index) (hts : g._index._timestamps.length = g._index._storage_pos_sorted_by_ts.length)
+    (h : modelContains (absDB norm g) q m = .ok b) :
+    DatabaseImpl.contains translatedExt g q m = .ok b :=
+  contains_closed norm g q m b hg hts h
 
 end TinyFlux.Props.C01
